@@ -15,8 +15,8 @@ Local Open Scope char_scope.
 
 Inductive act := ANewline | AEnd | AEofEnd | AExpect | ASkip | AOther.
 Record crule := CR { c_pat : string; c_act : act }.
-Definition reference_rules : list crule :=
-  [CR "\n" ANewline; CR """*/""" AEnd; CR "<<EOF>>" AEofEnd; CR """EXPECT:""[^\t \n]*" AExpect; CR "." ASkip].
+Definition reference_rules : list crule :=      (* sorted by pattern, as the generator writes them: their order in the file is immaterial *)
+  [CR """*/""" AEnd; CR """EXPECT:""[^\t \n]*" AExpect; CR "." ASkip; CR "<<EOF>>" AEofEnd; CR "\n" ANewline].
 
 Definition text := list ascii.
 Fixpoint starts (p s : text) : bool :=
